@@ -158,39 +158,47 @@ def r5(chk):
     for st in fn.body:
         if isinstance(st, ast.Assign) and isinstance(st.targets[0], ast.Name):
             env[st.targets[0].id] = st.value
-    ok_skip = "skip" in env and norm(env["skip"]) == "int(raire[0][0])"
     loops = [l for l in fn.body if isinstance(l, ast.For)]
-    ok_iter = False
-    ok_rank = False
-    ok_ids = False
+    ok_skip = ok_iter = ok_rank = ok_ids = False
     detail = {}
+    SK = LST = None
     if len(loops) == 1:
         l = loops[0]
         it = l.iter
         if isinstance(it, ast.Subscript) and norm(it.value) == "raire" and isinstance(it.slice, ast.Slice) and it.slice.upper is None \
                 and it.slice.step is None and it.slice.lower is not None:
-            lo = Tx(env={"skip": E(S("skip"))}).expr(it.slice.lower)
-            ok_iter = isinstance(lo, E) and is_zero(lo.e - (S("skip") + 1))
+            names = [n.id for n in ast.walk(it.slice.lower) if isinstance(n, ast.Name)]
+            SK = names[0] if len(names) == 1 else None
+            if SK:
+                lo = Tx(env={SK: E(S("skip"))}).expr(it.slice.lower)
+                ok_iter = isinstance(lo, E) and is_zero(lo.e - (S("skip") + 1))
+                ok_skip = SK in env and norm(env[SK]) == "int(raire[0][0])"
         row = norm(l.target)
         inner = [x for x in l.body if isinstance(x, ast.For)]
+        VOT = None
         if len(inner) == 1 and isinstance(inner[0].iter, ast.Call) and norm(inner[0].iter.func) == "range" and len(inner[0].iter.args) == 2:
             j = norm(inner[0].target)
             start = Tx().expr(inner[0].iter.args[0])
             stop = norm(inner[0].iter.args[1])
             sts = [(t, v, s) for t, v, s in stores(inner[0])]
-            if len(sts) == 1 and isinstance(start, E) and stop == f"len({row})":
+            if len(sts) == 1 and isinstance(start, E) and stop == f"len({row})" and isinstance(sts[0][0], ast.Subscript) \
+                    and isinstance(sts[0][0].value, ast.Name):
                 t, v, s = sts[0]
+                VOT = t.value.id
                 rank = Tx(env={j: E(S("j"))}).expr(v)
-                detail = dict(start=sp.sstr(start.e), rank=norm(v), key=norm(t))
+                detail = dict(start=sp.sstr(start.e), rank=norm(v), store=norm(t))
                 # the k-th listed candidate (k = j - start + 1) gets rank k; candidates start at column 2
                 ok_rank = isinstance(rank, E) and is_zero(rank.e - (S("j") - start.e + 1)) and start.e == 2 \
-                    and norm(t) in (f"votes[str({row}[{j}])]", f"votes[{row}[{j}]]")
+                    and norm(t.slice) in (f"str({row}[{j}])", f"{row}[{j}]")
         calls = [c for c in ast.walk(l) if isinstance(c, ast.Call) and norm(c.func) in ("CVR.from_vote", "cls.from_vote")]
-        if len(calls) == 1:
+        if len(calls) == 1 and calls[0].args:
             kw = {k.arg: norm(k.value) for k in calls[0].keywords}
             loc = {norm(s.targets[0]): norm(s.value) for s in l.body if isinstance(s, ast.Assign) and isinstance(s.targets[0], ast.Name)}
             ok_ids = loc.get(kw.get("contest_id", ""), kw.get("contest_id")) == f"{row}[0]" and loc.get(kw.get("id", ""), kw.get("id")) == f"{row}[1]" \
-                and norm(calls[0].args[0]) == "votes" and loc.get("votes") == "{}" and kw.get("phantom") == "phantom"
+                and norm(calls[0].args[0]) == VOT and loc.get(VOT) == "{}" and kw.get("phantom") == "phantom"
+            # the records are collected in the list that is merged and returned
+            ap = [c for c in ast.walk(l) if isinstance(c, ast.Call) and isinstance(c.func, ast.Attribute) and c.func.attr == "append" and calls[0] in c.args]
+            LST = norm(ap[0].func.value) if len(ap) == 1 else None
     chk.ob("C18.R5", where, "header-skipped", ok_skip and ok_iter,
            "the declared number of contest lines plus the count line are skipped: rows raire[skip+1:] with skip = int(raire[0][0])",
            node=loops[0] if loops else fn)
@@ -199,9 +207,15 @@ def r5(chk):
     chk.ob("C18.R5", where, "ids-from-columns", ok_ids,
            "contest id = column 0, card id = column 1, a fresh vote dict per row", node=loops[0] if loops else fn, strength="N")
     rets = [r for r in walk_local(fn) if isinstance(r, ast.Return)]
-    ok = len(rets) == 1 and isinstance(rets[0].value, ast.Tuple) and norm(rets[0].value.elts[0]) in ("CVR.merge_cvrs(cvr_list)", "cls.merge_cvrs(cvr_list)")
+    ok = len(rets) == 1 and isinstance(rets[0].value, ast.Tuple) and LST is not None and \
+        norm(rets[0].value.elts[0]) in (f"CVR.merge_cvrs({LST})", f"cls.merge_cvrs({LST})") and LST in env and norm(env[LST]) == "[]"
     chk.ob("C18.R5", where, "returns-merged", ok, "the reader returns the merged list (one record per card id)", node=rets[0] if rets else fn)
     ff = chk.fn(REL, "CVR.from_raire_file")
     calls = [c for c in ast.walk(ff) if isinstance(c, ast.Call) and norm(c.func) in ("CVR.from_raire", "cls.from_raire")]
-    chk.ob("C18.R5", W("CVR.from_raire_file"), "file-reader-delegates", len(calls) == 1 and norm(calls[0].args[0]) == "cvr_in" if calls else False,
+    ok = False
+    if len(calls) == 1 and calls[0].args and isinstance(calls[0].args[0], ast.Name):
+        rows_name = calls[0].args[0].id
+        ap = [c for c in ast.walk(ff) if isinstance(c, ast.Call) and norm(c.func) == f"{rows_name}.append"]
+        ok = len(ap) == 1 and any(isinstance(a, ast.For) and "csv.reader" in norm(ff) for a in ast.walk(ff))
+    chk.ob("C18.R5", W("CVR.from_raire_file"), "file-reader-delegates", ok,
            "the file reader hands every row, split by csv.reader, to from_raire", node=ff, strength="N")
